@@ -86,7 +86,15 @@ func main() {
 	out := flag.String("out", "", "output directory")
 	replay := flag.String("replay", "", "replay file (JSON with a case)")
 	maxShard := flag.Int("shard-bytes", 700000, "approximate shard size")
+	skel := flag.String("skeleton", "", "extract the MulVec protocol skeleton from this Go source file into -out (a .v file)")
 	flag.Parse()
+	if *skel != "" {
+		if err := extractSkeleton(*skel, *out); err != nil {
+			fmt.Fprintln(os.Stderr, err)
+			os.Exit(2)
+		}
+		return
+	}
 	zerolog.SetGlobalLevel(zerolog.DebugLevel) // finalizers log at trace level to stderr
 	f := families[*prop]
 	if f == nil {
